@@ -471,7 +471,7 @@ func outCalls(names ...string) func(r *Run, fn *ssa.Function, cr caseResult) str
 				if callee == nil {
 					continue
 				}
-				n := callee.Name()
+				n := cname(callee)
 				for _, want := range names {
 					if n == want {
 						set[n] = true
